@@ -30,14 +30,42 @@ def walk(case, obs):
     res = results_by_cmd(obs)
     objs = [dict() for _ in range(n)]
     out = []
+    # RSTs of abandoned connects on their way: target host -> [(src, sid, rport, ready_step, at_end)]
+    rstq = [[] for _ in range(n)]
+
+    def abandon(k, h, sid, o, crashed):
+        """a pending connect future is dropped: ConnectGuard sends a RST to the peer (latency 0)"""
+        rip = o.get("rip")
+        if rip is None or rip == NOHOST:
+            return
+        if rip == LOOP or rip == h:
+            if not crashed:                     # send_loopback task: fires at the end of the next turn
+                rstq[h].append((h, sid, o["rport"], k + 1, True, LOOP if rip == LOOP else h))
+            return
+        rstq[rip].append((h, sid, o["rport"], k, False, h))
+
+    def flush(k, t, at_end):
+        keep = []
+        for (src, sid, rport, ready, end, code) in rstq[t]:
+            if end == at_end and k >= ready:
+                out.append(("rst", k, t, src, sid, rport, code))
+            else:
+                keep.append((src, sid, rport, ready, end, code))
+        rstq[t] = keep
+
     for k, st in enumerate(case["steps"]):
         for act in st.get("ctl", []):
             if act[0] == "crash":
                 out.append(("crash", k, act[1], dict(objs[act[1]])))
+                for sid, o in objs[act[1]].items():
+                    if o["t"] == "conn":
+                        abandon(k, act[1], sid, o, True)
+                rstq[act[1]] = [x for x in rstq[act[1]] if not x[4]]    # its loopback tasks die with it
                 objs[act[1]] = {}
             else:
                 out.append(("bounce", k, act[1]))
         for h in range(n):
+            flush(k, h, False)
             for i, cmd in enumerate(st.get("hosts", {}).get(str(h), [])):
                 r = res.get((k, h, i))
                 if r is None:
@@ -104,6 +132,7 @@ def walk(case, obs):
                             evs = ["TcpDrop %d" % o["port"]]
                         elif o["t"] == "conn":
                             evs = ["ConnectCancel %d" % sid]
+                            abandon(k, h, sid, o, False)
                         else:
                             evs = ["CloseHalf %d %d %d" % o["key"]] * o["halves"]
                         del objs[h][sid]
@@ -121,6 +150,7 @@ def walk(case, obs):
                     out.append(("truncated", k, h, i, cmd, r))
                     return out
                 out.append(("cmd", k, h, i, cmd, r, evs, eff))
+            flush(k, h, True)
         out.append(("probe", k))
     return out
 
@@ -153,6 +183,8 @@ def to_model(case, obs):
             evs.append("At %d Crash" % item[2])
         elif item[0] in ("bounce", "truncated"):
             pass
+        elif item[0] == "rst":
+            evs.append("DeliverRst %d %d" % (item[3], item[4]))
         elif item[0] == "probe":
             probes.append((len(evs), "tables", item[1]))
             evs.append("Probe")
